@@ -8,6 +8,7 @@ import Norad.Props.C16
 #print axioms C16.lazy_get_is_disk_at_first_access
 #print axioms C16.no_access_ignores_disk
 #print axioms C16.get_settled_ignores_disk
+#print axioms C16.get_stable_afterwards
 #print axioms C16.error_entry_blocks_save_before_effects
 #print axioms C16.save_writes_verbatim
 #print axioms C16.save_writes_never_collide
